@@ -270,6 +270,9 @@ func (r *Reporter) Report(sig Signature, detail string, replay any) {
 	}
 }
 
+// IsKnown reports whether a signature matches a listed known finding.
+func (r *Reporter) IsKnown(sig Signature) bool { return r.known.Lookup(r.Prop, sig) != nil }
+
 func (r *Reporter) Note(format string, a ...any) {
 	r.mu.Lock()
 	defer r.mu.Unlock()
